@@ -18,6 +18,8 @@ type Clause struct {
 	Text string
 	E    Expr
 	Why  string // assume ... because "why"
+	Callee string // assume at call <callee>#<k>
+	CallOrd int
 	File string
 	Line int
 	// modifies
@@ -34,6 +36,9 @@ type Contract struct {
 	LoopInv    map[int][]*Clause
 	LoopDec    map[int]*Clause
 	LoopMod    map[int]*Clause
+	CallAssumes []*Clause // assume at call <callee>#<k>: E because "..."
+	Preserves  *Clause // locations (usually fields(T)) left unchanged even under modifies *
+	Callbacks  map[string]*Contract // contracts of func-typed parameters
 	Modifies   *Clause // nil => default: nothing (for verified functions), see gen
 	PanicsIf   *Clause
 	Trusted    bool // contract assumed, body not verified
@@ -214,8 +219,13 @@ func ParseSpecFile(path string, pkgName string) (*SpecFile, error) {
 			}
 			k, r3 := splitWord(r2)
 			pend = &pending{kind: "loop-" + k, loop: idx, text: r3, line: ln}
-		case "requires", "ensures", "assume", "modifies", "panics_if", "decreases", "witness":
+		case "requires", "ensures", "assume", "modifies", "panics_if", "decreases", "witness", "preserves":
 			pend = &pending{kind: word, text: rest, line: ln}
+		case "callback":
+			// callback <param> <clause...>: contract of a func-typed parameter
+			pn, r2 := splitWord(rest)
+			k, r3 := splitWord(r2)
+			pend = &pending{kind: "cb:" + pn + ":" + k, text: r3, line: ln}
 		case "trusted":
 			cur.Trusted = true
 		case "pure":
@@ -289,8 +299,35 @@ func splitWord(s string) (string, string) {
 }
 
 func addClause(c *Contract, kind string, loop int, text, file string, line int) error {
+	if strings.HasPrefix(kind, "cb:") {
+		parts := strings.SplitN(kind, ":", 3)
+		if c.Callbacks == nil {
+			c.Callbacks = map[string]*Contract{}
+		}
+		cb := c.Callbacks[parts[1]]
+		if cb == nil {
+			cb = &Contract{Key: c.Key + "$callback:" + parts[1], File: file, Line: line, LoopInv: map[int][]*Clause{}, LoopDec: map[int]*Clause{}, LoopMod: map[int]*Clause{}, Witnesses: map[string]*Clause{}}
+			c.Callbacks[parts[1]] = cb
+		}
+		if parts[2] == "pure" {
+			cb.Pure = true
+			cb.NonDet = true
+			return nil
+		}
+		return addClause(cb, parts[2], 0, text, file, line)
+	}
 	cl := &Clause{Kind: kind, Loop: loop, Text: text, File: file, Line: line}
 	switch kind {
+	case "preserves":
+		for _, part := range splitTop(strings.TrimSpace(text), ',') {
+			e, err := ParseExpr(part)
+			if err != nil {
+				return fmt.Errorf("preserves %q: %v", part, err)
+			}
+			cl.Mods = append(cl.Mods, e)
+		}
+		c.Preserves = cl
+		return nil
 	case "modifies", "loop-modifies":
 		t := strings.TrimSpace(text)
 		if t == "nothing" || t == "" {
@@ -319,6 +356,29 @@ func addClause(c *Contract, kind string, loop int, text, file string, line int) 
 			t = t[:i]
 		} else {
 			return fmt.Errorf("assume without because \"reason\"")
+		}
+		if strings.HasPrefix(strings.TrimSpace(t), "at call ") {
+			rest := strings.TrimPrefix(strings.TrimSpace(t), "at call ")
+			i := strings.Index(rest, ":")
+			if i < 0 {
+				return fmt.Errorf("assume at call <callee>#<k>: <expr>")
+			}
+			site := strings.TrimSpace(rest[:i])
+			t = rest[i+1:]
+			j := strings.LastIndex(site, "#")
+			if j < 0 {
+				return fmt.Errorf("assume at call: missing #<ordinal> in %q", site)
+			}
+			cl.Callee = site[:j]
+			fmt.Sscanf(site[j+1:], "%d", &cl.CallOrd)
+			e, err := ParseExpr(t)
+			if err != nil {
+				return err
+			}
+			cl.E = e
+			cl.Text = "at call " + site + ": " + strings.TrimSpace(t)
+			c.CallAssumes = append(c.CallAssumes, cl)
+			return nil
 		}
 		e, err := ParseExpr(t)
 		if err != nil {
